@@ -284,7 +284,8 @@ def run_cli(argv):
 def check_disabled(case):
     r = R()
     strs, fw, datetime_on, disabled = case["strings"], case["fw"], case["datetime"], case["disabled"]
-    active = NAMES[:3] + (NAMES[3:] if datetime_on else [])
+    # the date/time classes live in the process-global registry once any in-process run has enabled them
+    active = NAMES[:3] + (NAMES[3:] if (datetime_on or case.get("prior_datetime_run")) else [])
     removed = {n for n in active if n in disabled or ACTUAL[n] in disabled}
     remaining = [n for n in active if n not in removed]
     r.nontrivial = any(oracle.accepts(pl.PSEUDO[n], s) for n in removed for s in strs)
@@ -299,6 +300,13 @@ def check_disabled(case):
         argv += ["--disable-str-serializable-types"] + list(disabled)
         with global_registry_restored():
             with contextlib.redirect_stderr(io.StringIO()):
+                if case.get("prior_datetime_run"):
+                    # an earlier in-process run with --datetime has already registered the date/time classes once
+                    r.label("after-prior-datetime-run")
+                    try:
+                        run_cli(["-m", "Prior", path, "--datetime"])
+                    except Exception:  # noqa: BLE001
+                        pass
                 ok, out = owned(r, "cli", run_cli, argv)
     if not ok:
         return r
@@ -364,7 +372,8 @@ def disabled_cases(draw):
     return {"strings": draw(st.lists(strings().filter(lambda s: "\x00" not in s), min_size=1, max_size=4)),
             "fw": draw(st.sampled_from(gen.FRAMEWORKS)),
             "datetime": draw(st.booleans()),
-            "disabled": draw(st.lists(st.sampled_from(pool), min_size=0, max_size=4, unique=True))}
+            "disabled": draw(st.lists(st.sampled_from(pool), min_size=0, max_size=4, unique=True)),
+            "prior_datetime_run": draw(st.sampled_from([False, False, True]))}
 
 
 def all_registry_cases(tier):
@@ -407,6 +416,8 @@ def valid(case):
         if "strings" in case and not (isinstance(case["strings"], list) and case["strings"] and all(isinstance(s, str) and "\x00" not in s for s in case["strings"])):
             return False
         if "datetime" in case and not isinstance(case["datetime"], bool):
+            return False
+        if not isinstance(case.get("prior_datetime_run", False), bool):
             return False
         return True
     except Exception:  # noqa: BLE001
